@@ -4,6 +4,7 @@ import (
 	"encoding/json"
 	"fmt"
 	"math/rand"
+	"os"
 	"strconv"
 	"strings"
 	"sync"
@@ -23,7 +24,7 @@ type c15Val struct {
 }
 
 type c15Expr struct {
-	E    string    `json:"e"` // lit call get miss
+	E    string    `json:"e"` // lit call callat get miss
 	V    *c15Val   `json:"v,omitempty"`
 	M    string    `json:"m,omitempty"`
 	A    string    `json:"a,omitempty"`
@@ -53,6 +54,9 @@ func (e c15Expr) MarshalJSON() ([]byte, error) {
 	if args == nil {
 		args = []c15Expr{}
 	}
+	if e.E == "callat" {
+		return json.Marshal(map[string]any{"e": "callat", "m": e.M, "a": e.A, "i": e.I, "args": args})
+	}
 	return json.Marshal(map[string]any{"e": "call", "m": e.M, "a": e.A, "args": args})
 }
 
@@ -76,6 +80,32 @@ func (v *c15Val) tla() map[string]any {
 		return map[string]any{"t": "bool", "b": v.B}
 	}
 	return map[string]any{"t": "null"}
+}
+
+// c15CompactSrc renders a compact tree of the spec (MC_List.Compact) as jqawk / JSON source.
+func c15CompactSrc(v any) string {
+	switch x := v.(type) {
+	case float64:
+		return strconv.FormatFloat(x, 'f', -1, 64)
+	case bool:
+		return strconv.FormatBool(x)
+	case string:
+		if x == "~null" {
+			return "null"
+		}
+		if strings.HasPrefix(x, "~") {
+			infra("C15: cannot render %q as an initial value", x)
+		}
+		return strconv.Quote(x)
+	case []any:
+		parts := []string{}
+		for _, e := range x {
+			parts = append(parts, c15CompactSrc(e))
+		}
+		return "[" + strings.Join(parts, ", ") + "]"
+	}
+	infra("C15: cannot render %v as an initial value", v)
+	return ""
 }
 
 func (v *c15Val) src() string {
@@ -113,6 +143,9 @@ func (e *c15Expr) src(pl int) string {
 	for i := range e.Args {
 		args = append(args, e.Args[i].src(pl))
 	}
+	if e.E == "callat" {
+		return c15Name(pl, e.A) + "[" + strconv.Itoa(e.I) + "]." + e.M + "(" + strings.Join(args, ", ") + ")"
+	}
 	return c15Name(pl, e.A) + "." + e.M + "(" + strings.Join(args, ", ") + ")"
 }
 
@@ -126,20 +159,31 @@ func c15ArrSrc(vals []c15Val) string {
 
 // c15Program renders a history for placement pl; after every statement the
 // result, the arrays and their lengths are printed.
-func c15Program(init [3][]c15Val, ops []c15Stmt, pl, narr int, full bool) (prog string, input string) {
+// c15ContentsEvery: a recorded long history (full == false) prints the arrays after every so many statements and at the end.
+const c15ContentsEvery = 16
+
+func c15ContentsAfter(i, n int, full bool) bool {
+	return full || i == n-1 || (i+1)%c15ContentsEvery == 0
+}
+
+func c15InitSrc(init [3][]c15Val) [3]string {
+	return [3]string{c15ArrSrc(init[0]), c15ArrSrc(init[1]), c15ArrSrc(init[2])}
+}
+
+func c15Program(init [3]string, ops []c15Stmt, pl, narr int, full bool) (prog string, input string) {
 	var sb strings.Builder
 	sb.WriteString("{\n")
 	input = "{}"
 	switch pl {
 	case 0:
 		for k := 0; k < 3; k++ {
-			sb.WriteString(c15Names[0][k] + " = " + c15ArrSrc(init[k]) + "\n")
+			sb.WriteString(c15Names[0][k] + " = " + init[k] + "\n")
 		}
 		sb.WriteString("m = {k: 1}\n")
 	case 1:
-		input = "{\"a\": " + c15ArrSrc(init[0]) + ", \"b\": " + c15ArrSrc(init[1]) + ", \"c\": " + c15ArrSrc(init[2]) + ", \"m\": {\"k\": 1}, \"n\": 5}"
+		input = "{\"a\": " + init[0] + ", \"b\": " + init[1] + ", \"c\": " + init[2] + ", \"m\": {\"k\": 1}, \"n\": 5}"
 	case 2:
-		sb.WriteString("o = {p: " + c15ArrSrc(init[0]) + "}\nq = [" + c15ArrSrc(init[1]) + ", 0]\nw = {z: {y: " + c15ArrSrc(init[2]) + "}}\nu = {m: {k: 1}}\n")
+		sb.WriteString("o = {p: " + init[0] + "}\nq = [" + init[1] + ", 0]\nw = {z: {y: " + init[2] + "}}\nu = {m: {k: 1}}\n")
 	}
 	tags := []string{"A", "B", "C"}
 	for i := range ops {
@@ -152,23 +196,23 @@ func c15Program(init [3][]c15Val, ops []c15Stmt, pl, narr int, full bool) (prog 
 			// wrapped in an array literal: a string result is then printed quoted ("10" vs 10)
 			sb.WriteString("print \"R\", [" + op.X.src(pl) + "]\n")
 		}
-		if full {
+		contents := func() {
 			for k := 0; k < narr; k++ {
 				sb.WriteString("print \"" + tags[k] + "\", " + c15Names[pl][k] + "\n")
 			}
 			sb.WriteString("print \"M\", " + c15ObjNames[pl] + "\n")
+		}
+		if full {
+			contents()
 		}
 		ls := []string{}
 		for k := 0; k < narr; k++ {
 			ls = append(ls, c15Names[pl][k]+".length()")
 		}
 		sb.WriteString("print \"L\", " + strings.Join(ls, ", ") + "\n")
-	}
-	if !full {
-		for k := 0; k < narr; k++ {
-			sb.WriteString("print \"" + tags[k] + "\", " + c15Names[pl][k] + "\n")
+		if !full && c15ContentsAfter(i, len(ops), false) {
+			contents()
 		}
-		sb.WriteString("print \"M\", " + c15ObjNames[pl] + "\n")
 	}
 	sb.WriteString("}\n")
 	return sb.String(), input
@@ -188,12 +232,11 @@ type c15Step struct {
 	Dev []c15Exp `json:"dev"`
 }
 type c15Vec struct {
+	Init  []any     `json:"init"` // the initial arrays (compact trees)
 	Chk   []string  `json:"chk"`
 	Ops   []c15Stmt `json:"ops"`
 	Steps []c15Step `json:"steps"`
 }
-
-var c15Init = [3][]c15Val{{{T: "num", N: 10}, {T: "num", N: 2}}, {{T: "str", S: "b"}}, {}}
 
 // c15Match: is the output the one prescribed (dev: with the deviation's alternative where there is one)?
 func c15Match(v *c15Vec, dev bool, class string, lines []string, narr int, wild *bool) (bool, string) {
@@ -337,14 +380,92 @@ func c15RunMC(c *Ctx, pool *Pool, name, cfg string, files map[string]string, nar
 			mu.Lock()
 			vecs[tag] = v
 			mu.Unlock()
+			init := [3]string{"[]", "[]", "[]"}
+			if len(v.Init) != narr {
+				infra("C15: vector without its initial arrays: %.200s", raw)
+			}
+			for k := range v.Init {
+				init[k] = c15CompactSrc(v.Init[k])
+			}
 			jobs := []Job{}
 			for pl := 0; pl < 3; pl++ {
-				prog, input := c15Program(c15Init, v.Ops, pl, narr, true)
+				prog, input := c15Program(init, v.Ops, pl, narr, true)
 				jobs = append(jobs, Job{Kind: "run", Prog: []byte(prog), Files: []FileIn{{Name: "in.json", Data: []byte(input)}}})
 			}
 			st.Submit(Job{Kind: "history", Hist: jobs, Tag: tag})
 		}})
 	st.Wait()
+}
+
+// c15LongHistories writes seeded histories on LONG arrays (up to 45 elements, many elements that tie
+// under sort's order or are equal under ==) as given.json for MC_List Mode = "given": the ideal list
+// of the spec computes every expectation.  Strings stay within the alphabet of JqHeap.StrRank.
+func c15LongHistories(seed int64, n int) string {
+	r := rand.New(rand.NewSource(seed*32452843 + 5))
+	mixed := []c15Val{{T: "bool", B: true}, {T: "bool", B: false}, {T: "null"}, {T: "str", S: "1"}, {T: "num", N: 1}, {T: "str", S: "10"}, {T: "num", N: 10},
+		{T: "str", S: "a"}, {T: "str", S: "b"}, {T: "str", S: "ab"}, {T: "num", N: 2}, {T: "str", S: "2"}, {T: "num", N: -1}, {T: "str", S: "-1"}, {T: "str", S: "s"}, {T: "num", N: 0}}
+	val := func(kind int) c15Val {
+		switch kind {
+		case 0: // numbers only (numeric order; ties are identical)
+			return c15Val{T: "num", N: r.Intn(25) - 5}
+		case 1: // few distinct sort keys, many distinguishable elements per key
+			return mixed[r.Intn(7)]
+		}
+		return mixed[r.Intn(len(mixed))]
+	}
+	hs := []any{}
+	for h := 0; h < n; h++ {
+		kind := r.Intn(4)
+		la := r.Intn(46)
+		if r.Intn(3) > 0 && la < 13 {
+			la += 13
+		}
+		init := [3][]any{{}, {}, {}}
+		for i := 0; i < la; i++ {
+			v := val(kind)
+			init[0] = append(init[0], v.tla())
+		}
+		for i := r.Intn(4); i > 0; i-- {
+			v := val(2)
+			init[1] = append(init[1], v.tla())
+		}
+		lit := func() c15Expr { v := val(kind); return c15Lit(&v) }
+		ops := []c15Stmt{}
+		for k := 2 + r.Intn(3); k > 0; k-- {
+			var st c15Stmt
+			switch w := r.Intn(20); {
+			case w < 7:
+				st = c15Stmt{Op: "expr", X: ptr(c15Call("sort", 0))}
+			case w < 9:
+				st = c15Stmt{Op: "expr", X: ptr(c15Call("contains", 0, lit()))}
+			case w < 11:
+				st = c15Stmt{Op: "expr", X: ptr(c15Call([]string{"pop", "popfirst", "length"}[r.Intn(3)], 0))}
+			case w < 13:
+				st = c15Stmt{Op: "expr", X: ptr(c15Call("push", 0, lit()))}
+			case w < 15:
+				st = c15Stmt{Op: "expr", X: &c15Expr{E: "get", A: "a", I: r.Intn(2*la+3) - la - 1}}
+			case w < 17:
+				v := val(kind)
+				st = c15Stmt{Op: "set", A: "a", I: r.Intn(2*la+6) - la - 1, V: &v}
+			case w < 18:
+				st = c15Stmt{Op: "expr", X: ptr(c15Call("push", 1, c15Call("sort", 0)))} // the sorted copy inside another array
+			case w < 19:
+				st = c15Stmt{Op: "expr", X: ptr(c15Call("push", 0, c15Call([]string{"pop", "popfirst", "length"}[r.Intn(3)], 0)))}
+			default:
+				st = c15Stmt{Op: "expr", X: ptr(c15Call("length", 0))}
+				if kind == 0 { // ++ converts by num(): the spec's conversion table holds only a few strings
+					st = c15Stmt{Op: "inc", A: "a", I: r.Intn(la+1) - r.Intn(2)*la}
+				}
+			}
+			ops = append(ops, st)
+		}
+		hs = append(hs, map[string]any{"init": init, "ops": ops})
+	}
+	b, err := json.Marshal(hs)
+	if err != nil {
+		infra("C15: %v", err)
+	}
+	return string(b)
 }
 
 func c15OneLine(prog string) string {
@@ -378,11 +499,12 @@ type c15Hist struct {
 }
 
 type c15Gen struct {
-	next *c15Stmt // queued follow-up statement
-	r    *rand.Rand
-	lens [3]int
-	cont [3]bool // may hold a container
-	n    int
+	next  *c15Stmt // queued follow-up statement
+	r     *rand.Rand
+	lens  [3]int
+	cont  [3]bool // may hold a container
+	n     int
+	drain int // arrays longer than this are drained
 }
 
 func (g *c15Gen) val() *c15Val {
@@ -432,7 +554,7 @@ func (g *c15Gen) stmt() c15Stmt {
 		}
 	}
 	w := g.r.Intn(1000)
-	if g.lens[x] > 10 && w < 700 {
+	if g.lens[x] > g.drain && w < 700 {
 		w = 300 + g.r.Intn(250) // drain
 	}
 	switch {
@@ -491,8 +613,21 @@ func (g *c15Gen) stmt() c15Stmt {
 	case w < 860:
 		i := g.idx(x)
 		if g.lens[x] == 0 || g.r.Intn(4) == 0 {
-			i = g.lens[x] + g.r.Intn(2) // append, or pad one
+			old := g.lens[x]
+			i = old + g.r.Intn(4) // append, or pad one, two or three
 			g.lens[x] = i + 1
+			if i > old && g.r.Intn(3) > 0 {
+				// then change one of the padding nulls: that one alone must change
+				j := old + g.r.Intn(i-old)
+				if g.r.Intn(2) == 0 {
+					j -= g.lens[x] // the same position, counted from the end
+				}
+				if g.r.Intn(3) == 0 && !g.cont[x] {
+					g.next = &c15Stmt{Op: "inc", A: name(x), I: j}
+				} else {
+					g.next = &c15Stmt{Op: "set", A: name(x), I: j, V: g.val()}
+				}
+			}
 		}
 		return c15Stmt{Op: "set", A: name(x), I: i, V: g.val()}
 	case w < 900: // queue transfer
@@ -584,6 +719,7 @@ func c15Events(h *c15Hist, narr int, r Result) ([]string, error) {
 	add(map[string]any{"ev": "reset", "arrs": arrs})
 	lines := c09Lines(r.Stdout)
 	li := 0
+	recorded := 0 // statements recorded so far
 	for i := range h.ops {
 		op := &h.ops[i]
 		res := map[string]any{"t": "null"}
@@ -627,14 +763,18 @@ func c15Events(h *c15Hist, narr int, r Result) ([]string, error) {
 		}
 		li++
 		add(map[string]any{"ev": "op", "st": op, "err": false, "res": res, "lens": lens})
-		if i == len(h.ops)-1 {
-			// the final contents
+		recorded++
+		if c15ContentsAfter(i, len(h.ops), false) {
+			// the contents now
+			if li >= len(lines) {
+				break // the run ended between the two print statements: impossible unless printing failed
+			}
 			fin := []any{}
 			tags := []string{"A ", "B ", "C "}
 			for k := 0; k < 3; k++ {
 				if k < narr {
 					if li >= len(lines) || !strings.HasPrefix(lines[li], tags[k]) {
-						return nil, fmt.Errorf("final contents missing")
+						return nil, fmt.Errorf("statement %d: contents missing", i+1)
 					}
 					fin = append(fin, c15TreeJSON(c09ParsePrint(lines[li][2:])))
 					li++
@@ -648,9 +788,11 @@ func c15Events(h *c15Hist, narr int, r Result) ([]string, error) {
 			}
 			add(map[string]any{"ev": "final", "arrs": fin})
 			if li >= len(lines) || lines[li] != "M "+c15ObjText {
-				return nil, fmt.Errorf("the object whose missing member was read is not %s at the end", c15ObjText)
+				return nil, fmt.Errorf("statement %d: the object whose missing member was read is not %s", i+1, c15ObjText)
 			}
 			li++
+		}
+		if i == len(h.ops)-1 {
 			if li != len(lines) {
 				return nil, fmt.Errorf("extra output %q", lines[li])
 			}
@@ -664,8 +806,7 @@ func c15Events(h *c15Hist, narr int, r Result) ([]string, error) {
 	if r.Class != "runtime" {
 		return nil, fmt.Errorf("output ends after %d lines but the run ended %s", li, r.Class)
 	}
-	n := len(evs) - 1 // statements recorded so far
-	add(map[string]any{"ev": "op", "st": &h.ops[n], "err": true})
+	add(map[string]any{"ev": "op", "st": &h.ops[recorded], "err": true})
 	return evs, nil
 }
 
@@ -699,7 +840,7 @@ func c15Traces(c *Ctx, pool *Pool) {
 	jobs := make([]Job, nh)
 	narrs := make([]int, nh)
 	for i := range hists {
-		g := &c15Gen{r: r, n: 1 + r.Intn(3)}
+		g := &c15Gen{r: r, n: 1 + r.Intn(3), drain: []int{10, 10, 30}[r.Intn(3)]}
 		h := &c15Hist{pl: r.Intn(3), narr: g.n}
 		for k := 0; k < 3; k++ {
 			h.init[k] = []c15Val{}
@@ -714,7 +855,7 @@ func c15Traces(c *Ctx, pool *Pool) {
 		for j := 0; j < n; j++ {
 			h.ops = append(h.ops, g.stmt())
 		}
-		h.prog, h.input = c15Program(h.init, h.ops, h.pl, g.n, false)
+		h.prog, h.input = c15Program(c15InitSrc(h.init), h.ops, h.pl, g.n, false)
 		hists[i], narrs[i] = h, g.n
 		jobs[i] = Job{Kind: "run", Prog: []byte(h.prog), Files: []FileIn{{Name: "in.json", Data: []byte(h.input)}}, Budget: 50_000_000}
 	}
@@ -735,7 +876,11 @@ func c15Traces(c *Ctx, pool *Pool) {
 		h.first = len(trace)
 		trace = append(trace, evs...)
 		h.last = len(trace)
-		nops += len(evs) - 2
+		for _, e := range evs {
+			if strings.Contains(e, `"ev":"op"`) {
+				nops++
+			}
+		}
 	}
 	if len(trace) == 0 {
 		return
@@ -820,13 +965,34 @@ func checkC15(c *Ctx) {
 	if c.Thorough() {
 		depth = 4
 	}
-	tags := map[string]int{} // written only by the vector reader
-	c15RunMC(c, pool, "depth", c15Cfg("depth", depth), nil, 2, stats, tags)
-	c15RunMC(c, pool, "breadth", c15Cfg("breadth", breadth), nil, 2, stats, tags)
-	c15Traces(c, pool)
+	tags := map[string]int{}        // written only by the vector reader
+	only := os.Getenv("C15_FAMILY") // development: one family only
+	fam := func(name string, f func()) {
+		if only == "" || only == name {
+			t0 := time.Now()
+			f()
+			if only != "" || os.Getenv("C15_TIMING") != "" {
+				fmt.Fprintf(os.Stderr, "C15 family %s: %.1fs\n", name, time.Since(t0).Seconds())
+			}
+		}
+	}
+	fam("depth", func() { c15RunMC(c, pool, "depth", c15Cfg("depth", depth), nil, 2, stats, tags) })
+	fam("breadth", func() { c15RunMC(c, pool, "breadth", c15Cfg("breadth", breadth), nil, 2, stats, tags) })
+	// arrays that hold arrays: a[i].m(args) where evaluating the arguments changes a
+	nestedDepth, nestedBig, nlong := 2, 1, 250
+	if c.Thorough() {
+		nestedDepth, nestedBig, nlong = 3, 2, 4000
+	}
+	fam("nestedbig", func() { c15RunMC(c, pool, "nestedbig", c15Cfg("nestedbig", nestedBig), nil, 2, stats, tags) })
+	fam("nested", func() { c15RunMC(c, pool, "nested", c15Cfg("nested", nestedDepth), nil, 2, stats, tags) })
+	// long arrays
+	fam("long", func() {
+		c15RunMC(c, pool, "long", c15Cfg("given", 0), map[string]string{"given.json": c15LongHistories(c.Seed, nlong)}, 3, stats, tags)
+	})
+	fam("traces", func() { c15Traces(c, pool) })
 	for _, t := range []string{"law:push", "law:pop", "law:popfirst", "law:length", "law:poppush", "law:fifo", "law:sort", "law:sortstable", "law:sortnumeric",
-		"law:contains", "law:containserr", "law:get", "law:neg", "law:set", "law:nested", "law:pushabsent", "law:inc", "dev:ok", "dev:wild", "dev:error"} {
-		if tags[t] == 0 {
+		"law:contains", "law:containserr", "law:get", "law:neg", "law:set", "law:nested", "law:pushabsent", "law:inc", "law:recv", "law:recvmoved", "dev:ok", "dev:wild", "dev:error"} {
+		if tags[t] == 0 && only == "" {
 			infra("C15: vacuity guard: nothing exercised %q (model or alphabet changed?)", t)
 		}
 	}
